@@ -384,10 +384,12 @@ Proof.
     - intros o. rewrite TP0, Z3, cnt_nil, Nat.add_0_r. apply HC.
     - intros o Ho. rewrite TP0, Z4, cnt_nil, Nat.add_0_r. apply HP, Ho.
     - exact HD. }
-  destruct (cstate g) eqn:Cs; [|inversion Hr; subst; apply (Same []); reflexivity].
+  destruct (cstate g =? 2) eqn:Cs; [inversion Hr; subst; apply (Same []); reflexivity|].
   destruct m as [|[|[|[|[|m]]]]]; try (inversion Hr; subst; apply (Same _); reflexivity).
-  destruct (new_obj g 0 0) as [g3 x] eqn:N. inversion Hr; subst.
-  apply (new_obj_InvC g ls t l 0 0 g2 x p r HI Hl N).
+  - destruct (new_obj g 0 0) as [g3 x] eqn:N. inversion Hr; subst.
+    apply (new_obj_InvC g ls t l 0 0 g2 x p r HI Hl N).
+  - destruct (new_obj g (child_mode (S (S (S (S (S m)))))) 0) as [g3 x] eqn:N. inversion Hr; subst.
+    apply (new_obj_InvC g ls t l _ 0 g2 x p r HI Hl N).
 Qed.
 
 
@@ -768,7 +770,7 @@ Qed.
 
 Lemma reenter_quiet g m g' push : reenter g m = (g', push) -> quiet push = true /\ cf g' = cf g /\ mtx g' = mtx g.
 Proof.
-  unfold reenter. destruct (cstate g); [|intros H; inversion H; auto].
+  unfold reenter, new_obj. destruct (cstate g =? 2); [intros H; inversion H; auto|].
   destruct m as [|[|[|[|[|m]]]]]; intros H; inversion H; subst; auto.
 Qed.
 Lemma cbs_cont_quiet rest ec esz : quiet (cbs_cont rest ec esz) = true.
@@ -908,7 +910,7 @@ Definition is_cb (i : instr) : bool := match i with ICb _ _ _ _ => true | _ => f
 Lemma reenter_ghost g m g' push : reenter g m = (g', push) ->
   cf g' = cf g /\ gh g' = gh g /\ (forall i, In i push -> forall g0, cb_ok g0 i).
 Proof.
-  unfold reenter. destruct (cstate g); [|intros H; inversion H; subst; repeat split; auto; intros i []].
+  unfold reenter, new_obj. destruct (cstate g =? 2); [intros H; inversion H; subst; repeat split; auto; intros i []|].
   destruct m as [|[|[|[|[|m]]]]]; intros H; inversion H; subst; repeat split; auto; intros i Hi g0;
     repeat (destruct Hi as [<-|Hi]; [exact I|]); destruct Hi.
 Qed.
@@ -1352,7 +1354,7 @@ Lemma wstk_app a b : wstk (a ++ b) = wstk a + wstk b.
 Proof. unfold wstk. rewrite map_app, list_sum_app. reflexivity. Qed.
 Lemma reenter_busy g m g' push : reenter g m = (g', push) -> busy g' = busy g /\ wstk push = 0.
 Proof.
-  unfold reenter. destruct (cstate g); [|intros H; inversion H; auto].
+  unfold reenter, new_obj. destruct (cstate g =? 2); [intros H; inversion H; auto|].
   destruct m as [|[|[|[|[|m]]]]]; intros H; inversion H; subst; auto.
 Qed.
 Lemma invoke_busy g o g' push : invoke g o = (g', push) -> busy g' = busy g /\ wstk push = wop (IInvoke o).
